@@ -33,8 +33,9 @@ def from_builder(F, fn, v):
     """v == <X>.<fields> with X = build/hit_windows(difficulty(attributes(MAP), DIFF)).
     returns (final, field path, map_ok, diff_ok) or None"""
     # a private carrier of the builder output (`TaikoHitWindows::new(difficulty, map).great`) is read through
+    # ... also when the carrier is the mode's DifficultyValues (whose constructor loops over the objects: only the projected field is looked at)
     v = prov.inline_all(F, v, depth=2, _seen=(fn.path,), only=lambda f_: not f_.get('trait') and '{closure' not in (f_.get('path') or '') and
-                        (f_.get('impl_adt') or '') != B and not (f_.get('impl_adt') or '').endswith(('Beatmap', 'Difficulty', 'DifficultyValues')))
+                        (f_.get('impl_adt') or '') != B and not (f_.get('impl_adt') or '').endswith(('Beatmap', 'Difficulty')), loops_ok=True)
     v = prov.strip(v, names=set())
     if v[0] == 'call' and v[1].get('name') in ('unwrap_or', 'unwrap_or_default') and v[2]:
         v = prov.strip(v[2][0], names=set())
@@ -124,6 +125,11 @@ def run(ctx):
         ctx.saw(f)
         rvf = prov.prov_of(f).return_value()
         lits = [x for x in prov.walk(rvf) if x[0] == 'agg' and x[2] == 'taiko::attributes::TaikoDifficultyAttributes']
+        if not lits:
+            # the literal may be built by a private helper that receives the hit windows (`initial_attributes(hit_windows, is_convert)`)
+            rvf = prov.inline_all(F, rvf, depth=2, _seen=(f.path,), only=lambda f_: not f_.get('trait') and '{closure' not in (f_.get('path') or '') and
+                                  (f_.get('path') or '').startswith('taiko::difficulty') and f_.get('name') not in ('new', 'calculate', 'eval'))
+            lits = [x for x in prov.walk(rvf) if x[0] == 'agg' and x[2] == 'taiko::attributes::TaikoDifficultyAttributes']
         if not lits:
             ctx.violation('C17-R2', 'taiko:%s:shape' % f.name, 'no TaikoDifficultyAttributes literal reaches the result of %s' % fpath, f.where())
             continue
